@@ -4,10 +4,13 @@ import (
 	"encoding/json"
 	"fmt"
 	"go/ast"
+	"go/constant"
 	"os"
 	"path/filepath"
 	"sort"
 	"strings"
+
+	"golang.org/x/tools/go/ssa"
 )
 
 type earlyExit struct {
@@ -149,6 +152,7 @@ func loadEarlyExitTable(verifDir string) map[string]string {
 
 // ruleEarlyExitInventory: every guarded `return ..., nil` in the given packages is reviewed.
 func ruleEarlyExitInventory(c *Ctx, r *Report, clause string, floor int, pkgPrefixes ...string) {
+	ruleResultShapes(c, r, clause, pkgPrefixes...)
 	w := c.W
 	table := loadEarlyExitTable(c.VerifDir)
 	n := 0
@@ -210,4 +214,134 @@ func ruleNoCompaction(c *Ctx, r *Report, clause string, pkgPrefixes ...string) {
 		sites = append(sites, "gleece:0")
 	}
 	r.add(clause, "no-compaction", strings.Join(pkgPrefixes, ","), "no list in these packages is compacted, de-duplicated or filtered by a library call after it was built", pkgPrefixes, sites, viol)
+}
+
+// ---------------------------------------------------------------------------
+// Result shapes
+//
+// What a function can answer when it does not fail: for each non-error result whether it
+// is nil, a particular constant, or a value. `tables/resultshapes.json` records the set per
+// reviewed function. Restructuring a function (guard clauses, helpers) keeps the set; a new
+// early `return nil, nil` in a function that never answered "absent" before adds a shape.
+
+func resultShapesOf(fn *ssa.Function) []string {
+	set := map[string]bool{}
+	ei := errResultIndex(fn)
+	classify := func(v ssa.Value) string {
+		cls := map[string]bool{}
+		var leaves []ssa.Value
+		if curWorld != nil {
+			leaves = curWorld.originValues(v)
+		} else {
+			leaves = phiLeaves(v)
+		}
+		for _, lv := range leaves {
+			switch x := stripTrivial(lv).(type) {
+			case *ssa.Const:
+				switch {
+				case x.IsNil():
+					cls["nil"] = true
+				case x.Value != nil && x.Value.Kind() == constant.Bool:
+					cls[x.Value.String()] = true
+				case isZeroConst(x):
+					cls["zero"] = true
+				default:
+					cls["const"] = true
+				}
+			default:
+				cls["val"] = true
+			}
+		}
+		return strings.Join(keys(cls), "/")
+	}
+	for _, ex := range exitsOf(fn) {
+		if ex.Ret == nil || ex.Kind == exitFailure {
+			continue
+		}
+		var parts []string
+		for i, r := range ex.Ret.Results {
+			if i == ei {
+				continue
+			}
+			parts = append(parts, classify(unspill(r, ex.Block)))
+		}
+		if len(parts) > 0 {
+			set["("+strings.Join(parts, ", ")+")"] = true
+		}
+	}
+	return keys(set)
+}
+
+func (w *World) dumpResultShapes() []byte {
+	out := map[string][]string{}
+	for k, fi := range w.Funcs {
+		if fi.SSA == nil || fi.SSA.Blocks == nil || errResultIndex(fi.SSA) < 0 {
+			continue
+		}
+		if s := resultShapesOf(fi.SSA); len(s) > 0 {
+			out[k] = s
+		}
+	}
+	b, _ := json.MarshalIndent(map[string]any{
+		"_comment":      "per reviewed function with an error result: the shapes of its non-failing answers (nil / zero / true / false / const / val per non-error result), see checker/earlyexit.go",
+		"result_shapes": out,
+	}, "", " ")
+	return append(b, '\n')
+}
+
+func (w *World) loadResultShapes(verifDir string) map[string]map[string]bool {
+	if w.shapes != nil {
+		return w.shapes
+	}
+	w.shapes = map[string]map[string]bool{}
+	b, err := os.ReadFile(filepath.Join(verifDir, "tables", "resultshapes.json"))
+	if err != nil {
+		return w.shapes
+	}
+	var doc struct {
+		S map[string][]string `json:"result_shapes"`
+	}
+	if json.Unmarshal(b, &doc) != nil {
+		return w.shapes
+	}
+	for k, ss := range doc.S {
+		m := map[string]bool{}
+		for _, s := range ss {
+			m[s] = true
+		}
+		w.shapes[k] = m
+	}
+	return w.shapes
+}
+
+// ruleResultShapes: no reviewed function of the given packages gives a kind of non-failing
+// answer it did not give before.
+func ruleResultShapes(c *Ctx, r *Report, clause string, pkgPrefixes ...string) {
+	w := c.W
+	tbl := w.loadResultShapes(c.VerifDir)
+	viol := ""
+	var sites []string
+	n := 0
+	fis := w.funcsOfPkgPrefixes(pkgPrefixes...)
+	sort.Slice(fis, func(i, j int) bool { return fis[i].Key < fis[j].Key })
+	for _, fi := range fis {
+		if fi.SSA == nil || fi.SSA.Blocks == nil || errResultIndex(fi.SSA) < 0 || w.isNewName(fi.Key) {
+			continue
+		}
+		known, reviewed := tbl[fi.Key]
+		if !reviewed {
+			continue
+		}
+		n++
+		for _, s := range resultShapesOf(fi.SSA) {
+			if !known[s] {
+				sites = append(sites, w.pos(fi.Decl.Pos()))
+				viol = fmt.Sprintf("%s: %s can now succeed with an answer of shape %s; its reviewed answers are %v. A new `nil`/zero answer without an error is read by the callers as \"absent\" (an empty list as no list, a missing declaration as nothing to do) and silently drops what the rest of the function contributes", w.pos(fi.Decl.Pos()), fi.Key, s, keys(known))
+			}
+		}
+	}
+	if len(sites) == 0 {
+		sites = []string{strings.Join(pkgPrefixes, ",") + ":0"}
+	}
+	r.add(clause, "result-shape", strings.Join(pkgPrefixes, ","), fmt.Sprintf("the %d reviewed error-returning functions of these packages answer only in the shapes recorded for them", n), pkgPrefixes, sites, viol)
 }
